@@ -87,3 +87,20 @@ Example C16_nonvacuous :
                          None None None None None None [] None None None None); EDeliver [32; 3; 0; 0; 0]; ERun] in
   cph s = CRunning /\ msgq s = [] /\ live_senders s = 1 /\ settle s = s.
 Proof. vm_compute. auto. Qed.
+
+(* ---- spurious polls as script events ---------------------------------------------------------------------------------
+   With the Context task at rest (Stopped: what every event that runs it leaves behind, C16_pending_only_when_idle), a
+   poll of an operation future waiting on an empty oneshot, or of a stream with nothing buffered, is an event that
+   reports Pending, writes nothing and leaves exactly the state every event starts from (begin_ev only clears the
+   per-event output buffers): every later event behaves identically with or without it, wherever it is inserted. *)
+Theorem C16_spurious_poll_event : forall (s : sys) (i : N) (o : op), Stopped s -> alookup i (ops s) = Some o ->
+  (o_phase o = Wait1 /\ o_ch1 o = CEmpty) \/ (o_phase o = Wait2 /\ o_ch2 o = CEmpty) ->
+  step s (EPoll i) = (begin_ev s, [OPend i]) /\ forall e, step (fst (step s (EPoll i))) e = step s e.
+Proof. exact spurious_poll_event. Qed.
+Print Assumptions C16_spurious_poll_event.
+Theorem C16_spurious_stream_event : forall (s : sys) (j : N) (st : strm), Stopped s -> alookup j (streams s) = Some st ->
+  st_taken st = true -> st_buf st = [] -> st_sender st = true ->
+  step s (EPollStream j) = (begin_ev s, [ONone j]) /\ forall e, step (fst (step s (EPollStream j))) e = step s e.
+Proof. exact spurious_stream_event. Qed.
+Print Assumptions C16_spurious_stream_event.
+Check (eq_refl : begin_ev = fun s => set_tail (set_wire s (wbudget s) []) []).
